@@ -8,7 +8,7 @@ tmp="$(mktemp -d "${TMPDIR:-/tmp}/govc_mut.XXXXXX")"
 trap 'rm -rf "$tmp"' EXIT
 rsync -a --exclude .git /repo/ "$tmp/repo/"
 (cd "$tmp/repo" && patch -p1 -s < "$patch") || { echo "PATCH-FAILED $patch"; exit 3; }
-out="$(cd "$here" && VERIF_REPO="$tmp/repo" VERIF_ROOT="$tmp/out" VERIF_CONTRACTS="$here/contracts" VERIF_KNOWN="$here/known_findings.jsonl" bin/govc check "$prop" quick 2>&1 || true)"
+out="$(cd "$here" && VERIF_REPO="$tmp/repo" VERIF_ROOT="$here" VERIF_OUT="$tmp/out" bin/govc check "$prop" quick 2>&1 || true)"
 echo "$out" | grep -E "^VIOLATION|^KNOWN|quick:" | sed -e "s|$tmp/out|.|" | head -8
 echo "$out" | grep -q "^VIOLATION" && { echo "DETECTED $prop $(basename "$patch")"; exit 0; }
 echo "MISSED $prop $(basename "$patch")"; exit 1
